@@ -272,6 +272,31 @@ def run_case(case, ctx):
             if backend == 'local':
                 h.close()
             strata.add('backend:' + backend)
+    # ---- irregular files: the population mask (the stored inline-number array) is metadata a sample read may need once per reader;
+    # a reader that has it must not fetch it again for later sample reads, whatever header reads happened in between
+    if gm is not None and 189 in sp.stored:
+        j = sp.stored.index(189)
+        mlo, mhi = arr_ranges[j]
+        for backend in ('local', 'blob'):
+            h, r = open_reader(backend, False)
+            seq = [('get_trace', (0,)), ('gen_trace_header', (sp.ntr - 1,)), ('get_tracefield_values', (sp.stored[0],)), ('get_trace', (sp.ntr - 1,)),
+                   ('gen_trace_header', (0,)), ('get_trace', (sp.ntr // 2,)), ('read_inline', (0,)), ('get_trace', (1,))]
+            fetched_by_sample_reads = 0
+            for op in seq:
+                mark = len(h.log)
+                try:
+                    getattr(r, op[0])(*op[1])
+                except Exception:  # noqa
+                    continue
+                if op[0] in ('get_trace', 'read_inline'):
+                    fetched_by_sample_reads += sum(1 for off, n, got in h.log[mark:] if off < mhi and off + n > mlo)
+            counters['mask_sequences'] = counters.get('mask_sequences', 0) + 1
+            if fetched_by_sample_reads > 1:
+                bad.append({'sig': 'get_trace:population-mask-refetched', 'detail': 'sample reads of one reader fetched the inline-number array [%d,%d) %d times (sequence %s)'
+                            % (mlo, mhi, fetched_by_sample_reads, [o[0] for o in seq])})
+            _clear(r)
+            if backend == 'local':
+                h.close()
     # ---- compound calls through the segyio-style accessors: one subscript = several line / slice / trace reads.  The blocks of the
     # union box are all that may be fetched; in the default layout lines and z-slices come in groups of four decoded by one fetch, and
     # consecutive traces share their chunk, so no byte is fetched twice within the subscript either
